@@ -110,15 +110,17 @@ def kdeleteBody (k : KSt) (id : String) (allowMissing : Bool) (d : DOpts) : KSt 
       else ({ k with recs := kerase id k.recs }, .ok none)
 
 /-- the second and third guard of `deleteMode` (00bc77e, c078347): the mode stored under the id carries the active
-mode's id, or the active mode's id finds a stored mode that carries the same id as the one the id finds -/
+mode's id, or the active mode's id - if not empty (6e97ca4: the placeholder of a new model names no mode) - finds a
+stored mode that carries the same id as the one the id finds -/
 def knamesActive (k : KSt) (id : String) : Bool :=
   match kfind k id with
   | none => false
   | some st =>
     decide (st.id = k.active.id) ||
-      match kfind k k.active.id with
-      | none => false
-      | some cur => decide (cur.id = st.id)
+      (decide (k.active.id ≠ "") &&
+        match kfind k k.active.id with
+        | none => false
+        | some cur => decide (cur.id = st.id))
 
 /-- `deleteMode`: the guards compare the argument, then the record stored under it, with the ACTIVE RECORD's id;
 `modes.Delete` goes by key -/
